@@ -11,7 +11,7 @@ THOROUGH_SEEDS = 2   # the thorough tier repeats its staged workload over this m
 RULE = ('sanitizers watching the real code: (1) a guard-page global allocator in the driver - every heap block ends (mode end) or '
         'starts (mode start) at an inaccessible page and freed blocks become inaccessible - under an EXHAUSTIVE (len a, len b) sweep '
         'of + and - in every big-by-big form on operands that exactly fill their allocation (clones) and on operands with slack, '
-        'plus multiplication / division / radix parsing shapes that call the asm loops on sub-slices; (2) valgrind memcheck on the '
+        'plus multiplication / division / radix parsing shapes that call the asm loops on sub-slices, and the text / radix / gen_biguint part again with the library built without std; (2) valgrind memcheck on the '
         'release driver (sees loads/stores inside asm!) on a reduced sweep; (3) AddressSanitizer (nightly) on gen_biguint for every '
         'bit size 0..=4160 and the add/sub sweep (does not see inside asm!); (4) every by-reference operand is compared with the '
         'script after the call; (5) every String produced by to_str_radix / formatters over all radices is validated byte-wise. '
@@ -101,6 +101,10 @@ def stages(tier, seed):
         dict(label='guard-end', variant='guard-rel', groups=g_end, env={'NBD_GUARD': 'end'}, floors=floors, timeout=1200),
         dict(label='guard-start', variant='guard-rel', groups=[[c] for c in sw], env={'NBD_GUARD': 'start'}, floors=floors, timeout=1200),
     ]
+    # the same allocator with the library built without std: buffer-size estimates and guesses that exist only in that
+    # configuration (radix conversion capacity, root guesses) feed raw writes / unchecked conversions too
+    ns = text(rnd, quick) + c06.workload('quick', seed, 0.08 if quick else 0.4) + sweep(rnd, 12, ('ones',)) + gen_sizes(300 if quick else 1400, 3)
+    st.append(dict(label='guard-end-nostd', variant='guard-nostd-rel', groups=[[c] for c in ns], env={'NBD_GUARD': 'end'}, timeout=1200))
     vg = sweep(rnd, 12 if quick else 27, ('ones',)) + gen_sizes(200 if quick else 700, 3 if quick else 1) + text(rnd, True)[:: (6 if quick else 2)]
     st.append(dict(label='valgrind', variant='rel', tool='valgrind', groups=[[c] for c in vg], floors=['AddAsmEntered', 'SubAsmEntered'], timeout=2400))
     # Miri (UB interpreter incl. Stacked Borrows) on foreign targets for the non-asm unsafe code: the u64->u32 view in
